@@ -117,7 +117,9 @@ def record_diff(a, b, opts, views=True, timeout=8.0):
     try:
         with deadline(timeout):
             ret = a.diff(b)
-            edit = ret.edit
+            # the top-level edit is the first one diff() attached to the root (a wrapper edit such as the plist
+            # root's may later attach its own zero-cost self-match, which overwrites ret.edit)
+            edit = ret.edit_list[0] if getattr(ret, "edit_list", None) else ret.edit
             if edit is None:
                 raise Inconclusive("diff() attached no edit to the root")
             tighten_fully(edit)
